@@ -57,21 +57,29 @@ def run(sid, tier='quick'):
 
 
 def verify(sid):
+    """Confirm the seeded change ourselves: the demonstration fails with the change and passes
+    without it, and the repository's own test-suite still passes with the change."""
     d = os.path.join(S, sid)
     out = {}
     for name, patch in (('with_change', os.path.join(d, 'patch.diff')), ('without_change', None)):
         wt = worktree(sid + '-v', patch)
+        scratch = None
         try:
-            b = sh('cd %s && /venv/bin/python setup.py build_ext --inplace -j8' % wt, timeout=1800)
-            assert b.returncode == 0, b.stdout[-2000:]
-            env = 'PYTHONPATH=%s XDG_CACHE_HOME=/tmp/seed-cache-%s PYTHONHASHSEED=0' % (wt, sid)
-            r = sh('cd %s && %s /venv/bin/python %s' % (wt, env, os.path.join(d, 'demo.py')), timeout=1800)
+            # scratch copy with extensions from the cache (or freshly built) -- same path the checks use
+            r = sh('cd %s && VERIF_REPO=%s /venv/bin/python -c "from harness import core; i=core.Impl(\'verify-%s\'); i.build(); print(\'DIR=\'+i.dir)"' % (V, wt, sid), timeout=3000)
+            m = [l for l in r.stdout.splitlines() if l.startswith('DIR=')]
+            assert m, r.stdout[-2000:]
+            scratch = m[-1][4:]
+            env = 'PYTHONPATH=%s XDG_CACHE_HOME=/tmp/seed-cache-%s PYTHONHASHSEED=0 MPLBACKEND=Agg' % (scratch, sid)
+            r = sh('cd %s && %s timeout 1700 /venv/bin/python %s' % (scratch, env, os.path.join(d, 'demo.py')), timeout=1800)
             out[name] = {'exit': r.returncode, 'tail': r.stdout[-400:]}
             if name == 'with_change':
-                t = sh('cd %s && %s /venv/bin/python -m pytest -q -p no:cacheprovider --timeout=900 test -x -q' % (wt, env), timeout=3000)
+                t = sh('cd %s && %s /venv/bin/python -m pytest -q -p no:cacheprovider --timeout=900 test -x' % (scratch, env), timeout=3000)
                 out['tests_with_change'] = {'exit': t.returncode, 'tail': t.stdout[-300:]}
         finally:
             drop(wt)
+            if scratch:
+                sh('rm -rf %s' % scratch)
             sh('rm -rf /tmp/seed-cache-%s' % sid)
     out['confirmed'] = out['with_change']['exit'] != 0 and out['without_change']['exit'] == 0 and out['tests_with_change']['exit'] == 0
     json.dump(out, open(os.path.join(d, 'verify.json'), 'w'), indent=1)
